@@ -197,6 +197,33 @@ def run(ctx):
                               {"kind": "program", "program": p2, "expected": sorted(ks["in-process"] or []), "observed": {k: sorted(x or []) for k, x in ks.items()},
                                "cfg": c, "cats": [], "scenario": {"variant": v, "exclude": pat}})
 
+    # (b3) the annotated package lives in another module (a dependency required at a version, here through a local replace): the
+    # importer's diagnostics are those of the single-module twin, under both drivers
+    import gen_all
+    twin, texp = gen_all.allcodes("C06_twomod", pkgs=("u",))
+    root2 = os.path.join(ctx.scratch, "twomod")
+    for pk in twin["pkgs"]:
+        for f in pk["files"]:
+            inlib = pk["path"] == "m/d"
+            pth = os.path.join(root2, "lib" if inlib else "", f["name"])
+            os.makedirs(os.path.dirname(pth), exist_ok=True)
+            open(pth, "w").write(f["src"].replace('"m/d"', '"example.com/lib/d"'))
+    open(os.path.join(root2, "go.mod"), "w").write("module m\n\ngo 1.25\n\nrequire example.com/lib v0.0.0\n\nreplace example.com/lib => ./lib\n")
+    open(os.path.join(root2, "lib", "go.mod"), "w").write("module example.com/lib\n\ngo 1.25\n")
+    import subprocess as _sp
+    for drv in ("binary", "vet"):
+        cmd = [real, "-json", "./..."] if drv == "binary" else ["go", "vet", "-vettool=" + real, "-json", "./..."]
+        r2 = _sp.run(cmd, cwd=root2, env=vlib.go_env(), stdout=_sp.PIPE, stderr=_sp.PIPE, text=True, timeout=300)
+        ds, errs = proglib.parse_json_tree(r2.stdout if drv == "binary" else r2.stderr, root2)
+        runs += 1
+        if errs and "IMPL" not in str(errs) and not ds:
+            raise vlib.ToolError("two-module program does not load under %s: %s" % (drv, str(errs)[:400]))
+        got = proglib.keyset(proglib.dedup(ds))
+        if (vlib.crashed(r2.stderr) or got != texp) and len(ctx.violations) < 3:
+            ctx.violation("annotated package in another module (required at a version, replaced by a local directory), %s driver: missing %s, unexpected %s"
+                          % (drv, sorted(texp - got)[:6], sorted(got - texp)[:6]),
+                          {"kind": "twomodules", "driver": drv, "expected": sorted(texp), "observed": sorted(got)})
+
     # (c) trace validation: generated programs, and the repository's own integration fixtures, both drivers
     fixtures = []
     fx_root = os.path.join(vlib.REPO, "testdata", "integration", "src")
